@@ -63,6 +63,7 @@ def render_one(ex, kind, v):
             return Str([Int(39, 'char'), d, Int(39, 'char')])
         return render_int(ex, d)
     if isinstance(d, bool): return Str.lit('true' if d else 'false')
+    if z3.is_bool(d): return Str.lit('true' if ex.branch(d) else 'false')
     if isinstance(d, Agg):
         if d.name == 'Ipv4Addr' and all(isinstance(c.v.v, int) for c in d.fields):
             return Str.lit('.'.join(str(c.v.v) for c in d.fields))
